@@ -342,6 +342,21 @@ pub fn inst(e: &Expr, cx: &Cx) -> (Incr<Val>, Tag) {
             created(t, MKind::MapN(k), b.iter().map(|x| x.1).collect(), cx, &n);
             (n, t)
         }
+        Expr::Fold(k, es) if es.is_empty() => {
+            // a fold over no inputs: never invokes its function; for the model it is a constant
+            // holding the initial accumulator (but not one that `zip` may fold away)
+            let t = new_tag();
+            let can = canary();
+            let k = *k;
+            let n = cx.state.fold(Vec::<Incr<Val>>::new(), fold_init(k), move |acc: Val, x: &Val| {
+                let _c = &can;
+                log(Event::Run { tag: t, role: Role::FoldStep, args: vec![acc.clone(), x.clone()] });
+                fold_step(k, &acc, x)
+            });
+            created(t, MKind::Const(fold_init(k)), vec![], cx, &n);
+            CONSTS.with(|c| c.borrow_mut().remove(&t));
+            (n, t)
+        }
         Expr::Fold(k, es) => {
             let b: Vec<(Incr<Val>, Tag)> = es.iter().map(|e| inst(e, cx)).collect();
             let t = new_tag();
